@@ -86,6 +86,17 @@ def admitServer (min : Ver) (mode : Mode) (authz : Bool) (offered : List Ver)
       | some r => some ⟨v, some r⟩
     else some ⟨v, none⟩
 
+/-- What the server sees of a client's Certificate message: the presented list, end entity first
+    (RFC 8446 §4.4.2 / RFC 5246 §7.4.2).  The verifier validates the first certificate — further
+    ones are only candidate intermediates, and the self-signed verifier of sfio-rustls-config
+    insists that there are none — and `handle_connection` reads the role from
+    `peer_certificates().first()`, never from a later entry. -/
+def admitServerChain (min : Ver) (mode : Mode) (authz : Bool) (offered : List Ver)
+    (chain : List Cert) : Option Admission :=
+  match mode, chain with
+  | .selfSigned _, _ :: _ :: _ => none
+  | _, _ => admitServer min mode authz offered chain.head?
+
 /-- `TlsClientConfig::handle_connection` -/
 def admitClient (min : Ver) (mode : Mode) (name : Option String) (offered : List Ver)
     (server : Option Cert) : Option Ver :=
